@@ -8,7 +8,7 @@ Decided clauses (DESIGN.md section 5, C01):
  D4c AutoParameter's fallback stores the accepted limit of the requested value
  D5 bracket characters written by getDescription and read by readDescription agree
 """
-from .facts import kids, strip, walk, is_call, render, AnalysisBroken
+from .facts import kids, strip, walk, is_call, render, AnalysisBroken, local_inits
 from . import e1
 from .orderai import Interp, Obj, Eps, weak_orders, probes, car, show, NEG_INF, POS_INF, is_car, NotComparisonOnly
 import itertools
@@ -121,12 +121,67 @@ def run(chk, fb, tier):
     chk.rule("D6", "half-line constructor of IntervalConstraint: in each arm of the orientation flag the finite end carries the caller's inclusion flag and the infinite end is open")
     _d6(chk, fb)
 
+    chk.rule("D7", "who-writes rule on the two bound members of IntervalConstraint: no member moves a value from one bound into the other (assignment or std::swap): an interval given with lower > upper stays the empty interval it denotes")
+    _d7(chk, fb)
+
     from . import copyrule
     chk.rule("DC", "copy constructor and copy assignment copy the same members; operator= empties a member container before re-populating it; copy functions never assign through a stored shared pointer")
     copyrule.check(chk, fb, "DC", lambda c: c["file"].endswith(("Bpp/Numeric/Parameter.h", "Bpp/Numeric/AutoParameter.h", "Bpp/Numeric/Constraints.h")), floor=2)
     chk.assume("constraint objects are shared and mutable: a constraint mutated after installation (e.g. intMinMax_ of Simple/Constant/"
                "TruncatedExponential distributions via setUpperBound/&=) is outside the who-writes rule")
     chk.assume("E3: totally ordered coordinates without NaN; a lower bound of +inf / an upper bound of -inf is excluded from the emptiness oracle")
+
+
+def _d7(chk, fb):
+    """the bounds are stored as given: in no member of IntervalConstraint does a value travel from lowerBound_ to upperBound_ or
+    back (lowerBound_ = upperBound_, std::swap(lowerBound_, upperBound_), a temporary holding one and stored into the other).
+    '[3;1]' denotes the empty interval; re-ordering the bounds turns it into [1;3] and values are accepted that the caller excluded"""
+    IC = "bpp::IntervalConstraint"
+    fns = [f for f in fb.concrete_fns() if f.cls == IC and f.body is not None]
+    n = 0
+    for f in sorted(fns, key=lambda x: x.key):
+        inits = local_inits(f)
+
+        def bounds_in(node, depth=0):
+            out = set()
+            for x in walk(node):
+                if x["k"] == "MemberExpr" and x["member"].get("this") and x["member"]["name"] in ("lowerBound_", "upperBound_"):
+                    out.add(x["member"]["name"])
+                elif x["k"] == "DeclRefExpr" and x["decl"]["id"] in inits and depth < 2:
+                    out |= bounds_in(inits[x["decl"]["id"]], depth + 1)
+            return out
+        bad = None
+        wrote = False
+        for x in f.all_nodes():
+            if x["k"] == "BinaryOperator" and x.get("op") == "=":
+                l = strip(kids(x)[0])
+                if l["k"] == "MemberExpr" and l["member"].get("this") and l["member"]["name"] in ("lowerBound_", "upperBound_"):
+                    wrote = True
+                    other = "upperBound_" if l["member"]["name"] == "lowerBound_" else "lowerBound_"
+                    r = kids(x)[1]
+                    # the whole right-hand side is the other bound (possibly through a local): a move, not a computation with it
+                    rs = strip(r)
+                    direct = (rs["k"] == "MemberExpr" and rs["member"].get("this") and rs["member"]["name"] == other) or \
+                             (rs["k"] == "DeclRefExpr" and rs["decl"]["id"] in inits and bounds_in(inits[rs["decl"]["id"]]) == {other} and strip(inits[rs["decl"]["id"]])["k"] == "MemberExpr")
+                    if direct:
+                        bad = x
+            elif is_call(x) and x["callee"]["name"] in ("swap", "iter_swap", "exchange"):
+                names = set()
+                for a in f.args(x):
+                    names |= bounds_in(a)
+                if names == {"lowerBound_", "upperBound_"}:
+                    wrote = True
+                    bad = x
+        if not wrote:
+            continue
+        n += 1
+        if bad is not None:
+            chk.refuted("D7", f.key, "bounds-stored-as-given", f.loc(bad),
+                        "%s moves a value between lowerBound_ and upperBound_ ('%s'): an interval written with its lower bound above its upper bound is the empty interval, after the exchange it is a non-empty one and accepts values the description excluded" % (f.name, render(bad)[:60]),
+                        witness={"input": "readDescription(\"[3;1]\"): isEmpty() must stay true and isCorrect(2) false"})
+        else:
+            chk.proved("D7", f.key, "bounds-stored-as-given", f.loc(), "each bound is written from its own source")
+    chk.floor("D7", "IntervalConstraint members writing a bound", n, 3)
 
 
 _HSUM = {}
